@@ -466,4 +466,86 @@ def extraColsA (single : Bool) (s : SchemaAttrs) (nonzero : Nat → Bool) : List
 def insertColsA (single : Bool) (s : SchemaAttrs) (nonzero : Nat → Bool) : List String :=
   baseColsA s ++ extraColsA single s nonzero
 
+/-! ## (vi) callbacks/helper.go: Create from MAPS — which keys become columns, what is written for them
+
+  `ConvertMapToValuesForCreate` (one `map[string]interface{}` / `*map…`) and `ConvertSliceOfMapToValuesForCreate`
+  (`[]map…` / `*[]map…`).  Neither function looks at a VALUE: whatever the caller put under a key — an untyped nil, a
+  typed nil pointer, a zero, anything — is handed to the INSERT as it is (`nil` → NULL); a key the map does not hold is
+  not mentioned in the INSERT of a single map (the column's DEFAULT applies) and is bound as `nil` in a slice of maps when
+  another element mentions the column.  `V` = the value alphabet (opaque). -/
+
+/-- `Schema.LookUpField(k)` over the final registries: `FieldsByDBName[k]`, else `FieldsByName[k]` -/
+def lookUpA (s : SchemaAttrs) (k : String) : Option AField :=
+  match assoc k s.byDB with
+  | some i => nth? s.fields i
+  | none => (s.byName.filterMap (nth? s.fields)).find? (fun f => f.name == k)
+
+/-- helper.go:24-28 / :60-64: the column a map key is written to (`none` = the statement has no schema: `Table("t")` only).
+    A key that names a field WITHOUT column is rewritten to the empty column name, as the Go code does. -/
+def mapKeyCol (s : Option SchemaAttrs) (k : String) : String :=
+  match s with
+  | none => k
+  | some s => match lookUpA s k with
+    | some f => f.dbName
+    | none => k
+
+/-- statement.go:695-720 `processColumn` for a plain name (no `*`, no `table.column`, no association): the column of
+    the field it names when that field has one, else the name itself -/
+def selCol (s : Option SchemaAttrs) (n : String) : String :=
+  match s with
+  | none => n
+  | some s => match lookUpA s n with
+    | some f => if f.dbName != "" then f.dbName else n
+    | none => n
+
+/-- statement.go `SelectAndOmitColumns(true, false)` looked up as helper.go:30 / :67 do:
+    `if v, ok := selectColumns[k]; (ok && v) || (!ok && !restricted)`.  The map is written Selects first, Omits second,
+    the fields without create permission last (later writes win). -/
+def mapColAllowed (s : Option SchemaAttrs) (selects omits : List String) (c : String) : Bool :=
+  let isBlocked := match s with
+    | none => false
+    | some s => blocked s c
+  if isBlocked then false
+  else if omits.any (fun n => selCol s n == c) then false
+  else if selects.any (fun n => selCol s n == c) then true
+  else selects.isEmpty
+
+/-- `sort.Strings` (insertion sort; strings compare as their byte sequences — ASCII here) -/
+def insertStr (x : String) : List String → List String
+  | [] => [x]
+  | y :: l => if x ≤ y then x :: y :: l else y :: insertStr x l
+def sortStrings : List String → List String
+  | [] => []
+  | x :: l => insertStr x (sortStrings l)
+
+def insertEnt {V : Type} (x : String × V) : List (String × V) → List (String × V)
+  | [] => [x]
+  | y :: l => if x.1 ≤ y.1 then x :: y :: l else y :: insertEnt x l
+/-- helper.go:16-20: the entries of the map in the order of `sort.Strings(keys)` (keys of a Go map are distinct) -/
+def sortEnts {V : Type} : List (String × V) → List (String × V)
+  | [] => []
+  | x :: l => insertEnt x (sortEnts l)
+
+/-- helper.go:12-41 `ConvertMapToValuesForCreate`: (column, value) of the single VALUES row, in the order of the INSERT -/
+def mapCreateOne {V : Type} (s : Option SchemaAttrs) (selects omits : List String) (m : List (String × V)) : List (String × V) :=
+  (sortEnts m).filterMap (fun e =>
+    let c := mapKeyCol s e.1
+    if mapColAllowed s selects omits c then some (c, e.2) else none)
+
+/-- helper.go:58-75: the columns of `ConvertSliceOfMapToValuesForCreate` (every allowed column some element mentions,
+    sorted) -/
+def mapCreateCols {V : Type} (s : Option SchemaAttrs) (selects omits : List String) (ms : List (List (String × V))) : List String :=
+  sortStrings ((((ms.map (fun m => m.map (fun e => mapKeyCol s e.1))).flatten).filter (mapColAllowed s selects omits)).eraseDups)
+
+/-- helper.go:76-90: the VALUES row of element `m`: under every column the value of the key that is written to it, `none`
+    (= Go nil, bound as NULL) when the element has no such key.  (Two keys of ONE element that name the same column — a
+    column name next to its Go field name — are written in Go's map iteration order: not modelled, not generated.) -/
+def mapCreateRow {V : Type} (s : Option SchemaAttrs) (cols : List String) (m : List (String × V)) : List (Option V) :=
+  cols.map (fun c => (m.find? (fun e => mapKeyCol s e.1 == c)).map (·.2))
+
+def mapCreateMany {V : Type} (s : Option SchemaAttrs) (selects omits : List String) (ms : List (List (String × V))) :
+    List String × List (List (Option V)) :=
+  let cols := mapCreateCols s selects omits ms
+  (cols, ms.map (mapCreateRow s cols))
+
 end Gorm.Attrs
